@@ -399,6 +399,54 @@ def gen_cross(rng):
     return ops
 
 
+def gen_tangent(rng):
+    """a line that touches an arc's circle (the early-return branch `l/R < 1e-5` of getLineArcIntersection): half / quarter
+    circles with exactly representable centre, radius and touching point; the line is longer or shorter than the arc's
+    chord and the touching point lies nearer or farther from the line's first end than the chord length, before / beyond
+    the line's ends, inside / outside the arc's span; horizontal and vertical tangents, either drawing order (line first:
+    addArcSegment's loop; arc first: addSegment's loop), then possibly a copy that lands a second line on the tangent"""
+    R = float(rng.choice([1, 2, 4, 0.5]))
+    cx, cy = float(rng.randint(-2, 2)), float(rng.randint(-2, 2))
+    kind = rng.choice(["top180", "top90", "right180", "off-span"])
+    if kind == "top180":
+        a, b, ang, tp, dirv = (cx + R, cy), (cx - R, cy), 180.0, (cx, cy + R), (1.0, 0.0)
+    elif kind == "top90":
+        h = R * 0.7071067811865476
+        a, b, ang, tp, dirv = (cx + h, cy + h), (cx - h, cy + h), 90.0, (cx, cy + R), (1.0, 0.0)
+    elif kind == "right180":
+        a, b, ang, tp, dirv = (cx, cy - R), (cx, cy + R), 180.0, (cx + R, cy), (0.0, 1.0)
+    else:                                            # the touching point of the circle is outside the arc's span
+        a, b, ang, tp, dirv = (cx + R, cy), (cx - R, cy), 180.0, (cx, cy - R), (1.0, 0.0)
+    chord = math.hypot(a[0] - b[0], a[1] - b[1])
+    # distances from the touching point to the line's ends, in units of the chord: covers R' < chord < len, chord < R' < len,
+    # len < R' < chord (touching point beyond the end), len < chord, and the touching point right at an end
+    u = rng.choice([0.25, 0.75, 1.5, 3.0, 6.0, 0.0, -0.5])
+    w = rng.choice([0.25, 0.75, 1.5, 3.0, 6.0, -0.25])
+    p0 = (tp[0] - dirv[0] * u * chord, tp[1] - dirv[1] * u * chord)
+    p1 = (tp[0] + dirv[0] * w * chord, tp[1] + dirv[1] * w * chord)
+    if rng.random() < 0.5:
+        p0, p1 = p1, p0
+    if p0 == p1:
+        p1 = (p1[0] + dirv[0] * chord, p1[1] + dirv[1] * chord)
+    ops = [("addnode",) + a, ("addnode",) + b, ("addnode",) + p0, ("addnode",) + p1]
+    arc = ("addarc",) + a + b + (ang, float(rng.choice([1, 5, 10])))
+    seg = ("addsegment",) + p0 + p1
+    q = rng.random()
+    if q < 0.4:
+        ops += [arc, seg]
+    elif q < 0.8:
+        ops += [seg, arc]
+    else:
+        # the line is drawn away from the arc and copied onto the tangent
+        n = rng.choice([1, 2, 3])
+        off = (-dirv[1] * R, dirv[0] * R) if kind != "off-span" else (dirv[1] * R, -dirv[0] * R)
+        q0 = (p0[0] + n * off[0], p0[1] + n * off[1])
+        q1 = (p1[0] + n * off[0], p1[1] + n * off[1])
+        ops = [("addnode",) + a, ("addnode",) + b, arc, ("addnode",) + q0, ("addnode",) + q1, ("addsegment",) + q0 + q1,
+               ("selectsegment", (q0[0] + q1[0]) / 2, (q0[1] + q1[1]) / 2), ("copytranslate", -off[0], -off[1], n + rng.choice([0, 1]), 1)]
+    return ops
+
+
 def gen_near_dup(rng):
     """addArcSegment's duplicate test: a second arc between the same points whose angle differs by about the 1e-2 threshold
     (rejected below it, accepted above it), in either direction; then a selection / deletion"""
@@ -712,6 +760,7 @@ def gen_all(rng, quick):
         cases.append(gen_arc_seq(rng, rng.randint(8, 24)))
     cases += [gen_cross(rng) for _ in range(50 if quick else 1200)]
     cases += [gen_near_dup(rng) for _ in range(16 if quick else 300)]
+    cases += [gen_tangent(rng) for _ in range(30 if quick else 600)]
     cases += [gen_near_arc(rng) for _ in range(20 if quick else 300)]
     cases += [gen_arc_props_copy(rng) for _ in range(24 if quick else 500)]
     cases += [c16.gen_arc_copy(rng) for _ in range(8 if quick else 150)]
